@@ -186,18 +186,12 @@ impl FeelDate {
   }
   ///
   pub fn ym_duration(&self, other: &FeelDate) -> FeelYearsAndMonthsDuration {
-    let mut months;
-    if self.0 < other.0 {
-      months = 12 * (other.0 as i64 - self.0 as i64) + (other.1 as i64 - self.1 as i64);
-      if self.2 > other.2 {
-        months -= 1;
-      }
-      months *= -1;
-    } else {
-      months = 12 * (self.0 as i64 - other.0 as i64) + (self.1 as i64 - other.1 as i64);
-      if other.2 > self.2 {
-        months -= 1;
-      }
+    // whole months from `other` to `self`: an incomplete month does not count, in either direction
+    let mut months = 12 * (self.0 as i64 - other.0 as i64) + (self.1 as i64 - other.1 as i64);
+    if months > 0 && self.2 < other.2 {
+      months -= 1;
+    } else if months < 0 && self.2 > other.2 {
+      months += 1;
     }
     FeelYearsAndMonthsDuration::new_m(months)
   }
